@@ -1,0 +1,22 @@
+//go:build verif
+
+package gomavlib
+
+import (
+	"io"
+	"time"
+)
+
+// VerifSetReconnectPeriod sets the delay between connection attempts of client endpoints.
+// It exists only under the "verif" build tag, for the verification harness in /verif.
+func VerifSetReconnectPeriod(d time.Duration) time.Duration {
+	old := reconnectPeriod
+	reconnectPeriod = d
+	return old
+}
+
+// VerifSetSerialOpenFunc replaces the function that opens serial devices.
+// It exists only under the "verif" build tag, for the verification harness in /verif.
+func VerifSetSerialOpenFunc(f func(device string, baud int) (io.ReadWriteCloser, error)) {
+	serialOpenFunc = f
+}
